@@ -87,3 +87,6 @@ def run(ctx):
             owned = [nm for nm, ty in s.held_types() if idx.contains(ty, lambda d: d in VALUE_TYPES, through_local_adts=False)]
             ctx.check("C08-R5", "Worker::%s|susp%d owns no pulled item" % (name, s.variant), not owned,
                       "Worker::%s owns %s across an await inside the select loop: it is dropped when another branch wins" % (name, owned), s.where)
+
+    ctx.rule("C08-R6", "a dequeued stream of the session is returned, never refused: only foreign-session streams are stopped")
+    shared.driver_session_filters(ctx, "C08-R6", which=("accept_uni", "accept_bi"))
